@@ -69,6 +69,8 @@ def build_segments(shape: Shape, hist: List[Dict[str, Any]], root: str, store_ki
                    "modules": sorted(set(mods.values())),
                    "store": store_conf(store_kind, root) if mode == "dds" else None,
                    "options": options, "steps": [], "accept": accept or ["vpkg"]}
+            if shape.real.get("accept_form"):
+                cur["accept_form"] = shape.real["accept_form"]
             if shape.real.get("main_script"):
                 assert prog["layout"] == "one", "script placement has a single module"
                 cur["main_script"] = mods[shape.root]
